@@ -21,11 +21,14 @@ MANIFEST = {
              'number of cells), C07_iter_flags_spec + C07_iter_object_no_loss (the flag loop of prepare_iter_for_array), C07_iter_object_cond_source and '
              'C07_big_int_threshold_exact (decision and threshold read from the source AST), C07_fill_value_held (regenerated dtype_to_fill_value), '
              'C07_model_sound, C07_bloc_untouched_dtype (Boolean-target assignment keeps untargeted columns for every layout without mixed blocks), '
-             'C07_grown_row_no_loss (the row dtype cached by TypeBlocks.append of a table grown block by block is the common dtype or object: no cell is lost). '
+             'C07_grown_step_source (the append step read from the AST), C07_grown_row_no_loss (the row dtype cached by TypeBlocks.append of a table grown block by block is the common dtype or object: no cell is lost). '
              'Correspondence through the public interface: Series/Frame/Index reindex, shift, fillna*, assign (iloc/loc/bloc/column/row), insert, '
              'from_concat, from_overlay, from_records/from_dict/from_items, row consolidation (iloc[row], values, transpose, iter_array), IndexGO.append/extend, '
              'Frame.assign.iloc[rows, cols](Frame) over value frames with columns of different dtypes/widths on every target layout, fillna_forward/backward(axis=1) across adjacent blocks of different dtype, '
              'Frame.pivot_unstack over ragged/complete target orders (new columns that needed no fill keep the source dtype exactly), '
+             'coverage-guided routes (from_concat_items, axis-0 concat over column unions and incompatible block layouts, FrameGO setitem/extend with misaligned Series, '
+             'from_items with Series, assign.bloc with array/Frame/Series values, fillna_leading and sided fills on axis 1, shift on both axes, reindex without common labels, '
+             'row subsets, join_left/outer/inner, pivot_stack, Index and IndexHierarchy union/intersection/difference, hierarchy levels of mixed dtype, generator/dict/records_items constructors), '
              'FrameGO grown column by column (setitem, extend with Series/Frame, extend_items) then every row route (values, iter_array/iter_tuple/iter_series axis 1, iloc[row], transpose, to_pairs(1)) '
              'over a 43-dtype x 57-element grid and every block layout, each case evaluated inside Coq against M (result dtype + which cells survive) and S '
              '(every stored cell is the supplied cell; untouched columns keep their dtype); kernel sweeps of resolve_dtype (47x47), dtype_from_element, '
@@ -38,8 +41,10 @@ MANIFEST = {
              'int64/uint64 meeting float/complex or uint64 meeting signed ints; datetime64[Y|M] meeting [W]; time columns converted to object (NaT->None, ns->int); '
              'Boolean-target assignment / fillna retyping a whole 2-D block; iterable constructors leaving bool+number, bytes+number, big-int and timedelta mixes '
              'to NumPy discovery; dtype_kind_to_na returning the datetime NaT for timedelta. Not covered: time values whose count overflows int64 in the finer '
-             'unit (NumPy raises OverflowError or crashes), str+bytes (excluded by the property), structured dtypes, longdouble values, non-ASCII strings, '
-             'Index set operations, joins/pivots (C20).'),
+             'unit (NumPy raises OverflowError or crashes), str+bytes (excluded by the property, also where bytes cells meet str labels of a hierarchy), structured dtypes, '
+             'longdouble values, non-ASCII strings, constructors called with an explicit dtype= (a cast the caller asked for: from_element_items, astype), '
+             'Frame.pivot (aggregation), from_pandas, clip, arithmetic/binary operators, IndexDate-family typed indices. Only against S (no M): from_overlay over a union '
+             'index, fillna(Frame), from_concat over a union of columns, pivot_stack, IndexHierarchy union / GO append (set semantics or composite paths).'),
     'technique': 'refinement of regenerated kernel + value-domain inclusion proof + differential correspondence',
 }
 PROPERTY_FILES = ['Properties/C07.v']
@@ -126,11 +131,35 @@ def generate(repo):
     if len(found) != 2 or found[0].orelse != [found[1]] or found[1].orelse:
         raise ValueError('prepare_iter_for_array: the `resolved = object` decision no longer has the shape if/elif')
     cond = f'{_bool_expr(found[0].test)} || {_bool_expr(found[1].test)}'
+    # TypeBlocks.append: how the cached row dtype is updated when a block is appended (model: SF.Coerce.grown_step)
+    with open(os.path.join(repo, 'static_frame/core/type_blocks.py')) as f:
+        tb_tree = ast.parse(f.read())
+    append = None
+    for node in tb_tree.body:
+        if isinstance(node, ast.ClassDef) and node.name == 'TypeBlocks':
+            for sub in node.body:
+                if isinstance(sub, ast.FunctionDef) and sub.name == 'append':
+                    append = sub
+    if append is None:
+        raise ValueError('TypeBlocks.append not found')
+    last = append.body[-1]
+    want_first = "UnaryOp(op=Not(), operand=Attribute(value=Name(id='self', ctx=Load()), attr='_row_dtype', ctx=Load()))"
+    want_cmp = ("Compare(left=Attribute(value=Name(id='block', ctx=Load()), attr='dtype', ctx=Load()), ops=[NotEq()], "
+                "comparators=[Attribute(value=Name(id='self', ctx=Load()), attr='_row_dtype', ctx=Load())])")
+    want_set = "Assign(targets=[Attribute(value=Name(id='self', ctx=Load()), attr='_row_dtype', ctx=Store())], value=Name(id='DTYPE_OBJECT', ctx=Load())"
+    ok = (isinstance(last, ast.If) and ast.dump(last.test) == want_first and len(last.orelse) == 1 and isinstance(last.orelse[0], ast.If)
+          and ast.dump(last.orelse[0].test) == want_cmp and len(last.orelse[0].body) == 1 and ast.dump(last.orelse[0].body[0]).startswith(want_set)
+          and not last.orelse[0].orelse)
+    if not ok:
+        raise ValueError('TypeBlocks.append: the update of _row_dtype no longer has the shape `elif block.dtype != self._row_dtype: self._row_dtype = DTYPE_OBJECT`')
     text = ('(* GENERATED by tools/sfv/props/c07.py generate() from /repo/static_frame/core/util.py -- do not edit; regenerated on every run. *)\n'
-            'Require Import SF.Prelude.\n\n'
+            'Require Import SF.Prelude SF.Dtype.\n\n'
             f'Definition GEN_INT_MAX_COERCIBLE_TO_FLOAT : Z := {lit.z(c.value)}.\n\n'
             '(* util.prepare_iter_for_array: when `resolved = object` is assigned *)\n'
-            f'Definition gen_iter_object_cond ({" ".join(_FLAGS)} : bool) : bool :=\n  {cond}.\n')
+            f'Definition gen_iter_object_cond ({" ".join(_FLAGS)} : bool) : bool :=\n  {cond}.\n\n'
+            '(* type_blocks.py TypeBlocks.append: `elif block.dtype != self._row_dtype: self._row_dtype = DTYPE_OBJECT` *)\n'
+            'Definition gen_grown_step (row_dtype block_dtype : dtype) : dtype :=\n'
+            '  if negb (dtype_eqb block_dtype row_dtype) then DObj else row_dtype.\n')
     return {'Gen/Gen_c07.v': text}
 
 
@@ -762,10 +791,15 @@ SERIES_ARR_OPS = [op_s_concat, op_s_concat3, op_s_insert_after, op_s_insert_befo
                   op_s_fillna_series, op_s_overlay, op_idxgo_extend, op_s_overlay_union]
 
 
+STR_OUTER_OPS = ('xop_ih_values_at_depth', 'xop_ihgo_append', 'xop_ih_union', 'xop_f_pivot_stack')
+
+
 def arr_case(ctx, kind, op, hd, od, **kw):
     a, b = host(hd), host(od)
     if excluded_pair(a.dtype.kind, b.dtype.kind):
         return None
+    if op.__name__ in STR_OUTER_OPS and 'S' in (a.dtype.kind, b.dtype.kind):
+        return None      # these routes put the values next to str labels: str meets bytes is outside the claim
     desc = {'host_dtype': hd, 'host': rp(HOSTS[hd]), 'other_dtype': od, 'other': rp(HOSTS[od])}
     desc.update({k: str(v) for k, v in kw.items()})
     try:
@@ -1389,6 +1423,369 @@ def pivot_cases(ctx):
             if c is not None:
                 yield c
 
+
+# ------------------------------------------------------------------------------------------- further routes (coverage-guided)
+def xop_s_concat_items(a, b):
+    sf = _sf()
+    r = sf.Series.from_concat_items((('p', sf.Series(a)), ('q', sf.Series(b))))
+    return [Col(p_concat([a.dtype, b.dtype]), from_arr(a) + from_arr(b), r.values)]
+
+
+def xop_f_concat_items(a, b):
+    sf = _sf()
+    f1 = sf.Frame.from_items((('x', a), ('y', OTHER)))
+    f2 = sf.Frame.from_items((('x', b), ('y', OTHER)))
+    r = sf.Frame.from_concat_items((('p', f1), ('q', f2)))
+    return [Col(p_concat([a.dtype, b.dtype]), from_arr(a) + from_arr(b), colvals(r, 'x')),
+            Col(p_concat([OTHER.dtype, OTHER.dtype]), from_arr(OTHER) + from_arr(OTHER), colvals(r, 'y'), keep=OTHER.dtype)]
+
+
+def xop_f_concat0_union_columns(a, b):
+    '''from_concat(axis=0) over a union of columns: a frame without the column is reindexed with NaN first (composite: S only).'''
+    sf = _sf()
+    nan = float('nan')
+    f1 = sf.Frame.from_items((('x', a), ('y', a)))
+    f2 = sf.Frame.from_items((('x', b), ('z', b)))
+    r = sf.Frame.from_concat((f1, f2), index=sf.IndexAutoFactory)
+    cols = [Col(p_concat([a.dtype, b.dtype]), from_arr(a) + from_arr(b), colvals(r, 'x')),
+            Col(None, from_arr(a) + from_elem(nan, len(b)), colvals(r, 'y')),
+            Col(None, from_elem(nan, len(a)) + from_arr(b), colvals(r, 'z'))]
+    return cols, {}, [A(a), A(b), E(nan)]
+
+
+def xop_f_concat0_incompatible_blocks(a, b):
+    '''axis-0 concatenation of frames whose block layouts differ (column-by-column / reblock paths of vstack_blocks_to_blocks).'''
+    sf = _sf()
+    f1 = zoo.frame_from_columns([a, a, OTHER], ((2, True), (1, False)), columns=('x', 'y', 'z'))
+    f2 = zoo.frame_from_columns([b, a, OTHER], ((1, False), (1, True), (1, False)), columns=('x', 'y', 'z'))
+    f3 = zoo.frame_from_columns([a, b, OTHER], ((1, True), (1, False), (1, True)), columns=('x', 'y', 'z'))
+    r = sf.Frame.from_concat((f1, f2, f3), index=sf.IndexAutoFactory)
+    return [Col(p_concat([a.dtype, b.dtype, a.dtype]), from_arr(a) + from_arr(b) + from_arr(a), colvals(r, 'x')),
+            Col(p_concat([a.dtype, a.dtype, b.dtype]), from_arr(a) + from_arr(a) + from_arr(b), colvals(r, 'y')),
+            Col(p_concat([OTHER.dtype] * 3), from_arr(OTHER) * 3, colvals(r, 'z'), keep=OTHER.dtype)]
+
+
+def xop_f_setitem_series_misaligned(a, b):
+    sf = _sf()
+    nan = float('nan')
+    g = sf.FrameGO.from_items((('x', a),))
+    g['n'] = sf.Series(b[:2], index=[0, 1])
+    return [keep_col(a, g['x'].values), Col(p_fill(b.dtype, nan), from_arr(b, [0, 1]) + from_elem(nan), g['n'].values)], {}, [A(a), A(b), E(nan)]
+
+
+def xop_f_extend_series_fill(a, b):
+    sf = _sf()
+    g = sf.FrameGO.from_items((('x', a),))
+    fv = a[0]
+    g.extend(sf.Series(b[1:], index=[1, 2], name='m'), fill_value=fv)
+    return [keep_col(a, g['x'].values), Col(p_fill(b.dtype, fv), from_elem(fv) + from_arr(b, [1, 2]), g['m'].values)], {}, [A(b), E(fv)]
+
+
+def xop_f_from_items_series(a, b):
+    sf = _sf()
+    nan = float('nan')
+    r = sf.Frame.from_items((('x', sf.Series(a)), ('y', sf.Series(b[:2], index=[1, 2]))), index=range(3))
+    return [keep_col(a, colvals(r, 'x')), Col(p_fill(b.dtype, nan), from_elem(nan) + from_arr(b, [0, 1]), colvals(r, 'y'))], {}, [A(b), E(nan)]
+
+
+def xop_f_insert_before(a, b):
+    sf = _sf()
+    f = sf.Frame.from_items((('x', a), ('y', OTHER)))
+    r = f.insert_before('y', sf.Frame.from_items((('p', b), ('q', b))))
+    return [keep_col(a, colvals(r, 'x')), keep_col(b, colvals(r, 'p')), keep_col(b, colvals(r, 'q')), keep_col(OTHER, colvals(r, 'y'))]
+
+
+def _set_terms(kind, a, b, obs):
+    sup_a, sup_b = [cv(x) for x in cells_of(a)], [cv(x) for x in cells_of(b)]
+    o = lit.lst([cv(x) for x in cells_of(obs)])
+    if kind == 'union':
+        return Raw(f'M_dtype_check {p_pair(a.dtype, b.dtype)} {dt(obs.dtype)}', f'S_union {lit.lst(sup_a + sup_b)} {o}')
+    return Raw('true', f'S_subset {lit.lst(sup_a)} {o}')
+
+
+def xop_idx_union(a, b):
+    sf = _sf()
+    r = sf.Index(a).union(sf.Index(b))
+    return [_set_terms('union', a, b, r.values)]
+
+
+def xop_idx_intersection(a, b):
+    sf = _sf()
+    b2 = np.concatenate([b[:1], b[:1]]) if False else b
+    r = sf.Index(a).intersection(sf.Index(b2))
+    return [_set_terms('intersection', a, b, r.values)]
+
+
+def xop_idx_difference(a, b):
+    sf = _sf()
+    r = sf.Index(a).difference(sf.Index(b))
+    return [_set_terms('difference', a, b, r.values)]
+
+
+def xop_ih_values_at_depth(a, b):
+    '''A hierarchy whose inner level has a different dtype per subtree: values_at_depth resolves over the subtrees.'''
+    sf = _sf()
+    ih = sf.IndexHierarchy.from_index_items((('p', sf.Index(a[:2])), ('q', sf.Index(b[:2]))))
+    v = ih.values_at_depth(1)
+    sr = sf.Series(np.arange(4), index=ih)
+    v2 = sr.index.values[:, 1]     # the 2-D label array: the inner level meets the str outer level
+    return ([Col(p_iterdt([a.dtype, b.dtype]), from_arr(a, [0, 1]) + from_arr(b, [0, 1]), v), Col(None, from_arr(a, [0, 1]) + from_arr(b, [0, 1]), v2)],
+            {}, [A(a[:2]), A(b[:2]), A(np.array(['p', 'q']))])
+
+
+def xop_f_row_subset(a, b):
+    '''row consolidation of a SUBSET of the columns / rows (TypeBlocks._extract_array with both keys).'''
+    f = zoo.frame_from_columns([a, b, OTHER], tuple((1, False) for _ in range(3)), columns=COLS3)
+    r1 = f.iloc[1, [0, 1]].values
+    r2 = f.iloc[[0, 2], [1, 2]].values
+    r3 = f.loc[2, ['c2', 'c0']].values
+    return [Col(p_iterdt([a.dtype, b.dtype]), from_arr(a, [1]) + from_arr(b, [1]), r1),
+            Col(p_iterdt([b.dtype, OTHER.dtype]), from_arr(b, [0, 2]), r2[:, 0]), Col(p_iterdt([b.dtype, OTHER.dtype]), from_arr(OTHER, [0, 2]), r2[:, 1]),
+            Col(p_iterdt([OTHER.dtype, a.dtype]), from_arr(OTHER, [2]) + from_arr(a, [2]), r3)], {}, [A(a), A(b), A(OTHER)]
+
+
+def xop_f_bloc_array(a, b):
+    '''assign.bloc[mask](2-D array): _assign_from_bloc_by_unit with an array value, block by block.'''
+    sf = _sf()
+    out = []
+    for layout in (((2, True), (1, False)), ((1, False), (1, True), (1, False))):
+        f = frame3(a, layout)
+        val = np.empty((3, 3), dtype=b.dtype)
+        for j in range(3):
+            val[:, j] = b
+        mask = sf.Frame(np.array([[True, False, False], [False, False, False], [False, False, False]]), columns=COLS3)
+        r = f.assign.bloc[mask](val)
+        srcs = [a, na_free(a), OTHER]
+        plans = _block_plans(layout, srcs, [0], lambda c: p_pair(b.dtype, c.dtype))
+        out.append(Col(plans[0], from_arr(b, [0]) + from_arr(a, [1, 2]), colvals(r, 'c0')))
+        for j in (1, 2):
+            c = srcs[j]
+            out.append(keep_col(c, colvals(r, COLS3[j])) if plans[j] is None else Col(plans[j], from_arr(c), colvals(r, COLS3[j]), keep=c.dtype))
+    tags = {'finding': 'C07-block-retype'} if b.dtype != a.dtype else {}
+    return out, tags, [A(a), A(b)]
+
+
+def xop_f_bloc_frame(a, b):
+    '''assign.bloc[mask](Frame): _assign_from_bloc_by_blocks; every value column that meets a targeted block retypes its column.'''
+    sf = _sf()
+    out = []
+    for layout in (((2, True), (1, False)), ((1, False), (1, True), (1, False))):
+        f = frame3(a, layout)
+        g = sf.Frame.from_items((('c0', b), ('c1', b), ('c2', OTHER)))
+        mask = sf.Frame(np.array([[True, False, False], [False, False, False], [True, False, False]]), columns=COLS3)
+        r = f.assign.bloc[mask](g)
+        same_block = layout[0][0] == 2
+        out.append(Col(p_pair(b.dtype, a.dtype), from_arr(b, [0]) + from_arr(a, [1]) + from_arr(b, [2]), colvals(r, 'c0')))
+        c1 = na_free(a)
+        out.append(Col(p_pair(b.dtype, a.dtype), from_arr(c1), colvals(r, 'c1'), keep=c1.dtype) if same_block else keep_col(c1, colvals(r, 'c1')))
+        out.append(keep_col(OTHER, colvals(r, 'c2')))
+    tags = {'finding': 'C07-block-retype'} if b.dtype != a.dtype else {}
+    return out, tags, [A(a), A(b)]
+
+
+def xop_f_bloc_series(a, b):
+    '''assign.bloc[mask](Series of (row, column) -> value): _assign_from_bloc_by_coordinate.'''
+    sf = _sf()
+    out = []
+    for layout in (((2, True), (1, False)), ((1, False), (1, True), (1, False))):
+        f = frame3(a, layout)
+        mask = sf.Frame(np.array([[True, False, False], [False, False, False], [True, False, False]]), columns=COLS3)
+        sel = f.bloc[mask]
+        sv = sf.Series(b[:2], index=sel.index)
+        r = f.assign.bloc[mask](sv)
+        srcs = [a, na_free(a), OTHER]
+        plans = _block_plans(layout, srcs, [0], lambda c: p_pair(b.dtype, c.dtype))
+        out.append(Col(plans[0], from_elem(b[0]) + from_arr(a, [1]) + from_elem(b[1]), colvals(r, 'c0')))
+        for j in (1, 2):
+            c = srcs[j]
+            out.append(keep_col(c, colvals(r, COLS3[j])) if plans[j] is None else Col(plans[j], from_arr(c), colvals(r, COLS3[j]), keep=c.dtype))
+    tags = {'finding': 'C07-block-retype'} if b.dtype != a.dtype else {}
+    return out, tags, [A(a), E(b[0]), E(b[1])]
+
+
+def _join_frames(a, b):
+    sf = _sf()
+    return (sf.Frame.from_items((('k', np.arange(3)), ('x', a))), sf.Frame.from_items((('k', np.arange(2)), ('y', b[:2]))))
+
+
+def _join_col(xs, obs):
+    tags = {}
+    fnd = iter_finding(xs)
+    if fnd:
+        tags['finding'] = fnd
+    return Col(iter_plan(xs), [f'(FromElem {elem(x)})' for x in xs], obs), tags
+
+
+def xop_f_join_default(a, b):
+    '''join_left / join_outer: the right column is rebuilt as a LIST of its cells and the fill value (NaN), then set as a new column
+    (iterable_to_array_1d); join_inner needs no fill.'''
+    left, right = _join_frames(a, b)
+    nan = float('nan')
+    xs = cells_of(b[:2]) + [nan]
+    r = left.join_left(right, left_columns='k', right_columns='k', right_template='r_{}')
+    c1, tags = _join_col(xs, colvals(r, 'r_y'))
+    r2 = left.join_outer(right, left_columns='k', right_columns='k', right_template='r_{}')
+    c2, _ = _join_col(xs, colvals(r2, 'r_y'))
+    r3 = left.join_inner(right, left_columns='k', right_columns='k', right_template='r_{}')
+    c3, _ = _join_col(cells_of(b[:2]), colvals(r3, 'r_y'))
+    return [keep_col(a, colvals(r, 'x')), c1, keep_col(a, colvals(r2, 'x')), c2, keep_col(a[:2], colvals(r3, 'x')), c3], tags, []
+
+
+def xop_f_join_fill(a, b):
+    left, right = _join_frames(a, b)
+    fv = a[0]
+    xs = cells_of(b[:2]) + [fv]
+    r = left.join_left(right, left_columns='k', right_columns='k', right_template='r_{}', fill_value=fv, composite_index=False)
+    c1, tags = _join_col(xs, colvals(r, 'r_y'))
+    return [keep_col(a, colvals(r, 'x')), c1], tags, []
+
+
+def xop_f_pivot_stack(a, b):
+    '''pivot_stack: columns (x,p) and (x,q) of different dtypes are interleaved into one column x.'''
+    sf = _sf()
+    f = sf.Frame.from_items(((('x', 'p'), a), (('x', 'q'), b)), columns_constructor=sf.IndexHierarchy.from_labels)
+    r = f.pivot_stack()
+    cells = sum((from_elem(a[i]) + from_elem(b[i]) for i in range(len(a))), [])
+    return [Col(None, cells, r['x'].values)], {}, [E(x) for x in cells_of(a)] + [E(x) for x in cells_of(b)]
+
+
+def xop_ihgo_append(a, b):
+    '''IndexHierarchyGO.append / extend with an inner label of another dtype.'''
+    sf = _sf()
+    g = sf.IndexHierarchyGO.from_index_items((('p', sf.Index(a[:2])),))
+    g.append(('p', b[0]))
+    v = g.values_at_depth(1)
+    g2 = sf.IndexHierarchyGO.from_index_items((('p', sf.Index(a[:2])),))
+    g2.extend(sf.IndexHierarchy.from_index_items((('q', sf.Index(b[:2])),)))
+    v2 = g2.values_at_depth(1)
+    # the grown level is rebuilt from its labels (IndexGO / iterable_to_array_1d): the label-list finding classes apply
+    tags = _indexgo_years_tag(a, [b[0]])
+    fnd = iter_finding(cells_of(a[:2]) + cells_of(b[:2]))
+    if fnd and not tags:
+        tags = {'finding': fnd}
+    return [Col(None, from_arr(a, [0, 1]) + from_elem(b[0]), v), Col(None, from_arr(a, [0, 1]) + from_arr(b, [0, 1]), v2)], tags, [A(a[:2]), A(b[:2]), E(b[0])]
+
+
+def xop_ih_union(a, b):
+    sf = _sf()
+    i1 = sf.IndexHierarchy.from_index_items((('p', sf.Index(a[:2])),))
+    i2 = sf.IndexHierarchy.from_index_items((('p', sf.Index(b[:2])),))
+    r = i1.union(i2).values[:, 1]
+    o = lit.lst([cv(x) for x in cells_of(r)])
+    sup = [cv(x) for x in cells_of(a[:2])] + [cv(x) for x in cells_of(b[:2])]
+    # the union is rebuilt from its label tuples (IndexHierarchy.from_labels -> iterable_to_array_1d per depth)
+    # (numbers arrive there as Python objects: the 2-D label array is an object array)
+    as_py = lambda x: x.item() if isinstance(x, np.generic) and x.dtype.kind in 'biufc' else x
+    fnd = iter_finding([as_py(x) for x in cells_of(a[:2]) + cells_of(b[:2])]) or iter_finding(cells_of(a[:2]) + cells_of(b[:2]))
+    return [Raw('true', f'S_union {lit.lst(sup)} {o}')], ({'finding': fnd} if fnd else {}), [A(a[:2]), A(b[:2]), A(np.array(['p', 'q']))]
+
+
+EXT_ARR_OPS = [xop_s_concat_items, xop_f_concat_items, xop_f_concat0_union_columns, xop_f_concat0_incompatible_blocks, xop_f_setitem_series_misaligned,
+               xop_f_extend_series_fill, xop_f_from_items_series, xop_f_insert_before, xop_idx_union, xop_idx_intersection, xop_idx_difference,
+               xop_ih_values_at_depth, xop_f_row_subset, xop_f_bloc_array, xop_f_bloc_frame, xop_f_bloc_series,
+               xop_f_join_default, xop_f_join_fill, xop_f_pivot_stack, xop_ihgo_append, xop_ih_union]
+
+
+# ---- element routes
+def xop_f_fillna_leading(a, fv, layout):
+    f = frame3(a[::-1], layout)
+    a = a[::-1]
+    r = f.fillna_leading(fv)
+    srcs = [a, na_free(a), OTHER]
+    hit = [j for j, c in enumerate(srcs) if _na_mask(c)[0]]
+    plans = _block_plans(layout, srcs, hit, lambda c: p_fill(c.dtype, fv, True))
+    cols = []
+    for j, (c, l) in enumerate(zip(srcs, COLS3)):
+        na = _na_mask(c)
+        k = 0
+        while k < len(c) and na[k]:
+            k += 1
+        if plans[j] is None:
+            cols.append(keep_col(c, colvals(r, l)))
+        else:
+            cols.append(Col(plans[j], _fillna_cells(c, fv, lambda i: i < k), colvals(r, l), keep=None if j in hit else c.dtype))
+    return cols, _retype_tag(layout, srcs, hit, elem_np_dtype(fv))
+
+
+def _sided_axis1(a, fv, layout, leading):
+    '''fillna_leading/trailing(axis=1): the missing cells at the row edge of the first (last) block are filled; the block is retyped as a whole.'''
+    srcs = [a, na_free(a), OTHER] if leading else [OTHER, na_free(a), a]
+    names = COLS3
+    lay = layout if leading else tuple(reversed(layout))
+    f = zoo.frame_from_columns(srcs, lay, columns=names)
+    r = f.fillna_leading(fv, axis=1) if leading else f.fillna_trailing(fv, axis=1)
+    edge = 0 if leading else 2
+    na = _na_mask(srcs[edge])
+    hit = [edge] if any(na) else []
+    plans = _block_plans(lay, srcs, hit, lambda c: p_fill(c.dtype, fv, True))
+    cols = []
+    for j, (c, l) in enumerate(zip(srcs, names)):
+        if plans[j] is None:
+            cols.append(keep_col(c, colvals(r, l)))
+        elif j == edge:
+            cols.append(Col(plans[j], _fillna_cells(c, fv, lambda i: na[i]), colvals(r, l)))
+        else:
+            cols.append(Col(plans[j], from_arr(c), colvals(r, l), keep=c.dtype))
+    return cols, _retype_tag(lay, srcs, hit, elem_np_dtype(fv))
+
+
+def xop_f_fillna_leading_axis1(a, fv, layout):
+    return _sided_axis1(a, fv, layout, True)
+
+
+def xop_f_fillna_trailing_axis1(a, fv, layout):
+    return _sided_axis1(a, fv, layout, False)
+
+
+def xop_f_shift_both(a, fv, layout):
+    f = frame3(a, layout)
+    r = f.shift(1, 1, fill_value=fv)
+    b = na_free(a)
+    return [Col(p_elem(fv), from_elem(fv, 3), colvals(r, 'c0')),
+            Col(p_fill(a.dtype, fv), from_elem(fv) + from_arr(a, [0, 1]), colvals(r, 'c1')),
+            Col(p_fill(b.dtype, fv), from_elem(fv) + from_arr(b, [0, 1]), colvals(r, 'c2'))]
+
+
+def xop_f_shift_cols_neg(a, fv, layout):
+    f = frame3(a, layout)
+    r = f.shift(0, -2, fill_value=fv)
+    return [keep_col(OTHER, colvals(r, 'c0')), Col(p_elem(fv), from_elem(fv, 3), colvals(r, 'c1')), Col(p_elem(fv), from_elem(fv, 3), colvals(r, 'c2'))]
+
+
+def xop_f_reindex_no_common(a, fv, layout):
+    f = frame3(a, layout)
+    r1 = f.reindex(columns=['z', 'w'], fill_value=fv)
+    r2 = f.reindex(index=[7, 8], columns=['z'], fill_value=fv)
+    r3 = f.reindex(index=[2, 0], columns=['c2', 'c0'], fill_value=fv)
+    return [Col(p_elem(fv), from_elem(fv, 3), colvals(r1, 'z')), Col(p_elem(fv), from_elem(fv, 3), colvals(r1, 'w')),
+            Col(p_elem(fv), from_elem(fv, 2), colvals(r2, 'z')),
+            keep_col(OTHER[[2, 0]], colvals(r3, 'c2')), keep_col(a[[2, 0]], colvals(r3, 'c0'))]
+
+
+EXT_ELEM_OPS = [xop_f_fillna_leading, xop_f_fillna_leading_axis1, xop_f_fillna_trailing_axis1, xop_f_shift_both, xop_f_shift_cols_neg,
+                xop_f_reindex_no_common]
+TUPLE_OK |= {'xop_f_shift_both', 'xop_f_reindex_no_common'}
+
+
+def ext_cases(ctx):
+    pairs = [(hd, od) for hd in HOSTS_FRAME for od in HOSTS_FRAME]
+    for op in EXT_ARR_OPS:
+        sel = pairs if ctx.tier == 'thorough' else ctx.rng.sample(pairs, ctx.n(10, 0))
+        for hd, od in sel:
+            c = arr_case(ctx, 'api:routes-ext', op, hd, od)
+            if c is not None:
+                yield c
+    epairs = [(hd, fv) for hd in HOSTS_FRAME for fv in FILLS_FRAME]
+    for op in EXT_ELEM_OPS:
+        sel = epairs if ctx.tier == 'thorough' else ctx.rng.sample(epairs, ctx.n(6, 0))
+        for hd, fv in sel:
+            layouts = layouts3(host(hd))
+            for layout in (layouts if op in (xop_f_fillna_leading, xop_f_fillna_leading_axis1, xop_f_fillna_trailing_axis1) else layouts[::3]):
+                c = frame_elem_case(ctx, op, hd, fv, layout)
+                if c is not None:
+                    c.kind = 'api:routes-ext'
+                    yield c
+
 # ------------------------------------------------------------------------------------------- FrameGO grown column by column
 def p_grown(ds):
     return f'(PGrown {dt(ds[0])} {lit.lst([dt(d) for d in ds[1:]])})'
@@ -1575,7 +1972,42 @@ def iop_items(xs):
     return _sf().Series.from_items(enumerate(xs)).values
 
 
-ITER_OPS = [iop_series, iop_index, iop_records, iop_dict_records, iop_items]
+def iop_series_generator(xs):
+    return _sf().Series(x for x in xs).values
+
+
+def iop_from_elements(xs):
+    return _sf().Frame.from_elements(list(xs), index=range(len(xs)), columns=('x',))['x'].values
+
+
+def iop_iter_element_apply(xs):
+    return _sf().Series(range(len(xs))).iter_element().apply(lambda i: xs[i]).values
+
+
+def iop_records_generator(xs):
+    return _sf().Frame.from_records(((x, 0) for x in xs), columns=('k', 'n'))['k'].values
+
+
+def iop_records_items(xs):
+    return _sf().Frame.from_records_items((i, (x, 0)) for i, x in enumerate(xs))[0].values
+
+
+def iop_series_from_dict(xs):
+    return _sf().Series.from_dict({i: x for i, x in enumerate(xs)}).values
+
+
+def iop_dict_records_items(xs):
+    return _sf().Frame.from_dict_records_items((i, {'k': x}) for i, x in enumerate(xs))['k'].values
+
+
+def iop_go_setitem_list(xs):
+    g = _sf().FrameGO(index=range(len(xs)))
+    g['n'] = list(xs)
+    return g['n'].values
+
+
+ITER_OPS = [iop_series, iop_index, iop_records, iop_dict_records, iop_items, iop_series_from_dict, iop_dict_records_items, iop_go_setitem_list, iop_series_generator, iop_from_elements, iop_iter_element_apply,
+            iop_records_generator, iop_records_items]
 
 
 def iter_case(ctx, op, xs):
@@ -1602,7 +2034,7 @@ def iter_cases(ctx):
         if ctx.tier == 'thorough':
             sel = pairs + triples if k == 0 else pairs
         else:
-            sel = ctx.rng.sample(pairs + triples, min(len(pairs) + len(triples), ctx.n(300 if k == 0 else 45, 0)))
+            sel = ctx.rng.sample(pairs + triples, min(len(pairs) + len(triples), ctx.n(300 if k == 0 else 30, 0)))
         for xs in sel:
             if op is iop_index:
                 try:
@@ -1743,6 +2175,7 @@ def cases(ctx):
     yield from frame_elem_cases(ctx)
     yield from frame_arr_cases(ctx)
     yield from grown_cases(ctx)
+    yield from ext_cases(ctx)
     yield from pivot_cases(ctx)
     yield from assign_frame_cases(ctx)
     yield from directional_cases(ctx)
